@@ -205,6 +205,8 @@ def gen_job(rng, name, allow_never=True):
               yields=rng.choice([0, 0, 0, 1, 2, 3]))
     if sp['forever'] and allow_never and rng.random() < 0.6:
         sp['duration'] = None
+    if rng.random() < 0.25:
+        sp['empty_exc'] = True      # if it raises, its exception has an empty message
     return sp
 
 
